@@ -1,27 +1,949 @@
-//! C06 — stub, not built yet.
+//! C06 Related-text search returns exactly the selections in the relation.
+//!
+//! A case is a text, a set of known text selections on it (each created by an annotation, some of
+//! which are removed again), and a reference (bound selection, unbound selection, annotation with
+//! 1-3 selections, explicit TextSelectionSet). Every case is evaluated under every
+//! operator/modifier combination through every entry point that accepts the reference, and the
+//! answer is compared with a brute-force scan over all known selections using the
+//! interval-arithmetic relation definitions of `crate::rel` (three-valued).
+//!
+//! Signatures: `[union:|sortedset:]<operator sig>|ref=<half(s)>[+multi][+zw]|<geometric class of the wrong candidate>`.
+//!
+//! On the pinned tree the check fires at once; the root causes found (all in FindTextSelectionsIter unless noted)
+//! are repaired by /verif/proposed_fixes/C06-01..08 (witnesses in /verif/findings/C06/):
+//! 01 negated operators only searched near the reference; 02 Equals{all} never returned the reference;
+//! 03 half-open search ranges dropped the last position (zero-width at range end, anything ending at the end
+//! of the text when walking backwards, limit off by one); 04 After{limit} windowed the begin instead of the end;
+//! 05 Overlaps from the second half started at ref.end; 06 Succeeds+whitespace looked after the reference;
+//! 07 duplicates for multi-member references and results not in textual order; 08 TextSelectionSet::rightmost()
+//! on a sorted set. The check is silent only with these applied.
 
 use crate::engine::*;
+use crate::rel::{self, Op, Rel, R};
 use proptest::prelude::*;
+use serde::{Deserialize, Serialize};
+use stam::*;
+use std::collections::BTreeMap;
 
 pub struct C06;
 
+/// stam's (private) `WHITESPACE_LIMIT`: "a limited amount of whitespace is allowed"
+pub const WHITESPACE_LIMIT: usize = 10;
+pub const LIMITS: [Option<usize>; 5] = [None, Some(0), Some(1), Some(3), Some(10)];
+
+#[derive(Clone, Debug, Serialize, Deserialize, PartialEq, Eq)]
+pub struct KnownSel {
+    pub b: u8,
+    pub e: u8,
+    /// the annotation that created the selection is removed again (the selection stays known)
+    #[serde(default)]
+    pub removed: bool,
+}
+
+#[derive(Clone, Debug, Serialize, Deserialize, PartialEq, Eq)]
+pub enum RefSpec {
+    /// a single text selection; it is bound iff its offsets are among the known selections
+    Selection { b: u8, e: u8 },
+    /// an extra annotation over these (distinct) offsets; its selections are known too. With more than one
+    /// offset the selector is a MultiSelector (complex%3==0), CompositeSelector (1) or DirectionalSelector (2)
+    Annotation {
+        sels: Vec<(u8, u8)>,
+        #[serde(default)]
+        complex: u8,
+    },
+    /// an explicit TextSelectionSet over these (distinct) offsets, members bound iff known;
+    /// `sorted`: TextSelectionSet::sort() is called on it before use
+    Set {
+        sels: Vec<(u8, u8)>,
+        #[serde(default)]
+        sorted: bool,
+    },
+}
+
+#[derive(Clone, Debug, Serialize, Deserialize)]
+pub struct Case {
+    pub text: String,
+    pub known: Vec<KnownSel>,
+    pub reference: RefSpec,
+    /// restrict the evaluation to one operator (used by hand-minimised witnesses); None = all combinations
+    #[serde(default)]
+    pub only: Option<Op>,
+}
+
+// ------------------------------------------------------------------------------------------
+// generator
+
+const WORDCHARS: [char; 8] = ['a', 'b', 'é', 'ß', '字', '😀', 'x', 'Ж'];
+const WSCHARS: [char; 5] = [' ', ' ', '\t', '\n', '\u{3000}'];
+
+/// segments -> text of at most `maxlen` codepoints
+fn build_text(segs: &[(u8, u8)], ascii: bool, maxlen: usize) -> String {
+    let mut s = String::new();
+    let mut n = 0usize;
+    for (i, (kind, len)) in segs.iter().enumerate() {
+        let (ws, len) = match kind % 10 {
+            0..=5 => (false, 1 + (*len as usize % 5)),
+            6..=8 => (true, 1 + (*len as usize % 4)),
+            _ => (true, 9 + (*len as usize % 5)), // run longer than / around the whitespace limit
+        };
+        for j in 0..len {
+            if n >= maxlen {
+                return s;
+            }
+            let c = if ws {
+                if ascii {
+                    ' '
+                } else {
+                    WSCHARS[(i + j + *kind as usize) % WSCHARS.len()]
+                }
+            } else if ascii {
+                (b'a' + ((i * 3 + j) % 26) as u8) as char
+            } else {
+                WORDCHARS[(i * 3 + j + *kind as usize) % WORDCHARS.len()]
+            };
+            s.push(c);
+            n += 1;
+        }
+    }
+    s
+}
+
+/// geometry: resolve (mode, x, y) against the anchors on a text of n codepoints
+fn resolve(mode: u8, x: u16, y: u16, n: usize, anchors: &[usize]) -> (u8, u8) {
+    let a = |i: u16| anchors[pick(i, anchors.len())];
+    let (b, e) = match mode % 10 {
+        0 | 1 | 2 => {
+            // both ends on anchors: shared boundaries, nesting, adjacency, crossing
+            let (p, q) = (a(x), a(y));
+            if p == q {
+                (p, (p + 1 + (y as usize % 3)).min(n))
+            } else {
+                (p.min(q), p.max(q))
+            }
+        }
+        3 => {
+            // begins on an anchor, short (0..3)
+            let b = a(x);
+            (b, (b + pick(y, 4)).min(n))
+        }
+        4 => {
+            // ends on an anchor, short (0..3)
+            let e = a(x);
+            (e.saturating_sub(pick(y, 4)), e)
+        }
+        5 => {
+            // zero-width on an anchor
+            let p = a(x);
+            (p, p)
+        }
+        6 => {
+            // touches the very end of the text
+            (pick(x, n + 1), n)
+        }
+        7 => {
+            // zero-width anywhere
+            let p = pick(x, n + 1);
+            (p, p)
+        }
+        8 => {
+            // straddles an anchor: crosses whatever begins or ends there
+            let p = a(x);
+            (p.saturating_sub(1 + pick(y, 3)), (p + 1 + (y as usize % 3)).min(n))
+        }
+        _ => {
+            let (p, q) = (pick(x, n + 1), pick(y, n + 1));
+            (p.min(q), p.max(q))
+        }
+    };
+    (b as u8, e as u8)
+}
+
+type RawSel = (u8, u16, u16);
+
+fn raw_case(
+    segs: Vec<(u8, u8)>,
+    ascii: bool,
+    anchors: Vec<u16>,
+    sels: Vec<(RawSel, bool)>,
+    refkind: u8,
+    refsels: Vec<(RawSel, bool, u16)>,
+    maxlen: usize,
+) -> Case {
+    let text = build_text(&segs, ascii, maxlen);
+    let n = text.chars().count();
+    let mut anch: Vec<usize> = anchors.iter().map(|i| pick(*i, n + 1)).collect();
+    anch.push(n);
+    anch.sort();
+    anch.dedup();
+    let known: Vec<KnownSel> = sels
+        .iter()
+        .map(|((m, x, y), removed)| {
+            let (b, e) = resolve(*m, *x, *y, n, &anch);
+            KnownSel { b, e, removed: *removed }
+        })
+        .collect();
+    // members of the reference: either one of the known selections or fresh geometry
+    let mut members: Vec<(u8, u8)> = vec![];
+    for ((m, x, y), from_known, k) in &refsels {
+        let r = if *from_known && !known.is_empty() {
+            let ks = &known[pick(*k, known.len())];
+            (ks.b, ks.e)
+        } else {
+            resolve(*m, *x, *y, n, &anch)
+        };
+        if !members.contains(&r) {
+            members.push(r);
+        }
+    }
+    let reference = match refkind % 8 {
+        0 | 1 | 2 => RefSpec::Selection { b: members[0].0, e: members[0].1 },
+        3 | 4 | 5 => RefSpec::Annotation { sels: members, complex: refkind / 8 },
+        6 => RefSpec::Set { sels: members, sorted: false },
+        _ => RefSpec::Set { sels: members, sorted: true },
+    };
+    Case { text, known, reference, only: None }
+}
+
+fn rawsel() -> impl Strategy<Value = RawSel> {
+    (any::<u8>(), any::<u16>(), any::<u16>())
+}
+
+// ------------------------------------------------------------------------------------------
+// oracle
+
+fn pos(op: &Op) -> Op {
+    Op { negate: false, ..*op }
+}
+
+/// is the pair (a, c) in the documented fuzzy zone of Precedes/Succeeds with allow_whitespace:
+/// an all-whitespace gap longer than the library's limit?
+fn ws_fuzzy(op: &Op, a: R, c: R, text: &[char]) -> bool {
+    if !(op.has_ws() && op.ws) {
+        return false;
+    }
+    let (from, to) = if op.rel == Rel::Precedes { (a.1, c.0) } else { (c.1, a.0) };
+    to > from && to - from > WHITESPACE_LIMIT && rel::pair_pos(&pos(op), a, c, text) == Some(true)
+}
+
+/// `refs OP {c}` for a candidate that is not a member of the reference, negation included
+fn expect_nonmember(op: &Op, refs: &[R], c: R, text: &[char], embeds_documented: bool) -> Option<bool> {
+    if op.has_ws() && op.ws {
+        if !op.all {
+            if refs.iter().any(|a| ws_fuzzy(op, *a, c, text)) {
+                // every a must relate to c: a definite 'no' from another member still decides
+                return if refs
+                    .iter()
+                    .any(|a| rel::pair_pos(&pos(op), *a, c, text) == Some(false))
+                {
+                    Some(op.negate)
+                } else {
+                    None
+                };
+            }
+        } else {
+            let max_ae = refs.iter().map(|x| x.1).max().unwrap();
+            let min_ab = refs.iter().map(|x| x.0).min().unwrap();
+            let (a, cc) = if op.rel == Rel::Precedes {
+                ((max_ae, max_ae), (c.0, c.0))
+            } else {
+                ((min_ab, min_ab), (c.1, c.1))
+            };
+            if ws_fuzzy(op, a, cc, text) {
+                return None;
+            }
+        }
+    }
+    rel::sets(op, refs, &[c], text, embeds_documented)
+}
+
+/// Three-valued expectation for candidate `c` (a known selection) given the reference set.
+fn expect(op: &Op, refs: &[R], refs_all_known: bool, c: R, text: &[char]) -> Option<bool> {
+    if refs.contains(&c) {
+        // the reference itself: only the (positive) equality relation returns it
+        if op.rel == Rel::Equals && !op.negate {
+            if refs.len() == 1 {
+                Some(true)
+            } else if !op.all && refs_all_known {
+                Some(true)
+            } else {
+                None
+            }
+        } else {
+            Some(false)
+        }
+    } else {
+        let d = expect_nonmember(op, refs, c, text, true);
+        let i = expect_nonmember(op, refs, c, text, false);
+        if d == i {
+            d
+        } else {
+            None // documented and implemented quantifier shape of Embeds disagree (known finding of C13)
+        }
+    }
+}
+
+/// expectation for the "each selection separately" form (TextSelectionIterator::related_text, used by the
+/// RELATION constraint with an annotation variable): related to ANY member, the member itself only under Equals
+fn expect_union(op: &Op, refs: &[R], c: R, text: &[char]) -> Option<bool> {
+    let mut unknown = false;
+    for r in refs {
+        let v = if *r == c {
+            Some(op.rel == Rel::Equals && !op.negate)
+        } else {
+            expect_nonmember(op, &[*r], c, text, true)
+        };
+        match v {
+            Some(true) => return Some(true),
+            None => unknown = true,
+            Some(false) => {}
+        }
+    }
+    if unknown {
+        None
+    } else {
+        Some(false)
+    }
+}
+
+/// geometric class of a (wrongly handled) candidate relative to the hull of the reference
+fn class(c: R, refs: &[R], n: usize, op: &Op, text: &[char]) -> String {
+    let hb = refs.iter().map(|x| x.0).min().unwrap();
+    let he = refs.iter().map(|x| x.1).max().unwrap();
+    let mut s = String::new();
+    let zw = c.0 == c.1;
+    if refs.contains(&c) {
+        s.push_str("reference_itself");
+    } else if zw {
+        s.push_str(if c.0 < hb {
+            "zw_before"
+        } else if c.0 == hb {
+            "zw_at_ref_begin"
+        } else if c.0 < he {
+            "zw_inside"
+        } else if c.0 == he {
+            "zw_at_ref_end"
+        } else {
+            "zw_after"
+        });
+    } else if c.1 <= hb {
+        s.push_str(if c.1 == hb {
+            "before_adjacent"
+        } else if text[c.1..hb].iter().all(|x| x.is_whitespace()) {
+            "before_separated_by_whitespace"
+        } else {
+            "before"
+        });
+    } else if c.0 >= he {
+        s.push_str(if c.0 == he {
+            "after_adjacent"
+        } else if text[he..c.0].iter().all(|x| x.is_whitespace()) {
+            "after_separated_by_whitespace"
+        } else {
+            "after"
+        });
+    } else if c.0 >= hb && c.1 <= he {
+        s.push_str("inside_ref");
+    } else if c.0 <= hb && c.1 >= he {
+        s.push_str("contains_ref");
+    } else if c.0 < hb {
+        s.push_str("ends_inside_ref");
+    } else {
+        s.push_str("begins_inside_ref");
+    }
+    if c.1 == n {
+        s.push_str("+ends_at_textlen");
+    }
+    if let (true, Some(l)) = (op.has_limit(), op.limit) {
+        if c.0 < hb.saturating_sub(l) {
+            s.push_str("+begins_before_limit_window");
+        }
+        if c.1 > he + l {
+            s.push_str("+ends_after_limit_window");
+        }
+    }
+    s
+}
+
+fn refclass(refs: &[R], n: usize) -> String {
+    let halfway = n / 2;
+    let first = refs.iter().any(|r| r.0 <= halfway);
+    let second = refs.iter().any(|r| r.0 > halfway);
+    let mut s = String::from(match (first, second) {
+        (true, false) => "first_half",
+        (false, true) => "second_half",
+        _ => "both_halves",
+    });
+    if refs.len() > 1 {
+        s.push_str("+multi");
+    }
+    if refs.iter().any(|r| r.0 == r.1) {
+        s.push_str("+zw");
+    }
+    s
+}
+
+fn query_keyword(op: &Op) -> Option<&'static str> {
+    // the STAMQL keywords stand for the default-constructed operators (precedes()/succeeds() allow whitespace)
+    if op.all || op.negate || op.limit.is_some() {
+        return None;
+    }
+    Some(match op.rel {
+        Rel::Equals => "EQUALS",
+        Rel::Overlaps => "OVERLAPS",
+        Rel::Embeds => "EMBEDS",
+        Rel::Embedded => "EMBEDDED",
+        Rel::Before => "BEFORE",
+        Rel::After => "AFTER",
+        Rel::Precedes if op.ws => "PRECEDES",
+        Rel::Succeeds if op.ws => "SUCCEEDS",
+        Rel::SameBegin => "SAMEBEGIN",
+        Rel::SameEnd => "SAMEEND",
+        _ => return None,
+    })
+}
+
+pub fn c06_ops() -> Vec<Op> {
+    rel::all_ops(&LIMITS)
+        .into_iter()
+        .filter(|o| !matches!(o.rel, Rel::InSet | Rel::SameRange))
+        .collect()
+}
+
+/// one observed answer
+struct Answer {
+    entry: &'static str,
+    /// (begin, end, bound selection of the resource under test?)
+    items: Vec<(usize, usize, bool)>,
+    /// compare against the union form instead of the set form
+    union: bool,
+    /// textual order is documented for this entry point
+    ordered: bool,
+}
+
+/// (begin, end, is it a bound selection of the resource under test?)
+fn obs(t: &ResultTextSelection) -> (usize, usize, bool) {
+    (
+        t.begin(),
+        t.end(),
+        matches!(t, ResultTextSelection::Bound(_)) && t.resource().id() == Some("r"),
+    )
+}
+
+fn collect<'a>(it: impl Iterator<Item = ResultTextSelection<'a>>) -> Vec<(usize, usize, bool)> {
+    it.map(|t| obs(&t)).collect()
+}
+
+fn run_query<'s>(
+    store: &'s AnnotationStore,
+    kw: &str,
+    tvar: Option<&ResultTextSelection<'s>>,
+    avar: Option<&ResultItem<'s, Annotation>>,
+) -> Result<Vec<(usize, usize, bool)>, String> {
+    let qs = format!("SELECT TEXT ?x WHERE RELATION ?ref {};", kw);
+    let (mut q, _) = Query::parse(&qs).map_err(|e| format!("parse: {}", e))?;
+    if let Some(t) = tvar {
+        q.bind_textvar("ref", t);
+    }
+    if let Some(a) = avar {
+        q.bind_annotationvar("ref", a);
+    }
+    let iter = store.query(q).map_err(|e| format!("query: {}", e))?;
+    let mut v = vec![];
+    for r in iter {
+        for item in r.iter() {
+            if let QueryResultItem::TextSelection(t) = item {
+                v.push(obs(t));
+            }
+        }
+    }
+    Ok(v)
+}
+
 impl Property for C06 {
-    type Case = u8;
+    type Case = Case;
     fn id(&self) -> &'static str {
         "C06"
     }
     fn rule(&self) -> String {
-        "not built yet".into()
+        "case = (text of 0-48 (thorough: 0-64) codepoints built from word and whitespace runs, half of them with 2-4 byte characters and tab/newline/U+3000 whitespace, some runs longer than the whitespace limit; 1-12 (thorough: 1-16) known selections placed on shared anchor positions (nested, crossing, adjacent, same begin/end, zero-width, touching the end of the text, anywhere), some of whose annotations are removed again; a reference = bound or unbound selection | annotation over 1-3 selections (TextSelector, Multi-, Composite- or DirectionalSelector) | explicit TextSelectionSet of 1-3 bound/unbound selections, half of them sort()ed; a second resource with the same text and annotations on the same offsets is always present and must never show up). Every case is evaluated under all 96 operator/modifier combinations (Equals, Overlaps, Embeds, SameBegin, SameEnd x all x negate; Embedded, Before, After x all x negate x limit{None,0,1,3,10}; Precedes, Succeeds x all x negate x allow_whitespace) through ResultTextSelection::related_text, ResultItem<TextSelection>::related_text, ResultItem<Annotation>::related_text, ResultTextSelectionSet::related_text, ResultItem<TextResource>::related_text, annotation.textselections().related_text (TextSelectionIterator, 'each selection separately') and (for the ten keyword forms) SELECT TEXT ?x WHERE RELATION ?ref <OP> with a text or annotation variable; the answer is compared with a brute-force scan of all known selections under the interval-arithmetic relation definitions (completeness, soundness, each once, textual order where documented). Enumerated part: every range of a small text known, every range as reference (and every pair of ranges as a set). Non-trivial = at least 3 known selections and, for some positive operator, both a related and an unrelated candidate; distinct = distinct case JSON.".into()
     }
-    fn cases(&self, _tier: Tier) -> u64 {
-        0
+    fn assumptions(&self) -> Vec<String> {
+        vec![
+            "the relation is read with the reference as subject: result = { c known : reference OP c } (README: sentence.related_text(embeds()) = what the sentence embeds; tests: phrase.related_text(after()) = what the phrase comes after)".into(),
+            "members of the reference are 'the reference itself': expected only under positive Equals (for a multi-member reference only without `all` and when all members are known; otherwise don't care)".into(),
+            "don't care (counted): Overlaps with a zero-width operand; Precedes/Succeeds with allow_whitespace over an all-whitespace gap of more than 10 codepoints; Embeds from a multi-member reference where the documented and the implemented quantifier shape differ (known finding of C13); Equals/`all` and limit+`all` on multi-member references where the rustdoc is silent".into(),
+            "the `limit` modifier is read as the relation test reads it (distance between the facing boundaries <= limit): the statement ties the search result to the relation test, and C13 pins that test to crate::rel".into(),
+            "InSet and SameRange are not part of the statement and are not exercised; textual order is only asserted for ResultItem<Annotation>::related_text, whose rustdoc promises it, and only as non-decreasing begin positions ('the order in which they appear in the text'); the order among selections with the same begin is don't care".into(),
+            "TextSelectionIterator::related_text and RELATION with an annotation variable are compared with the 'each selection separately' form documented for TextSelectionIterator::related_text (related to any member)".into(),
+        ]
     }
-    fn strategy(&self, _tier: Tier) -> BoxedStrategy<u8> {
-        any::<u8>().boxed()
+    fn cases(&self, tier: Tier) -> u64 {
+        tier.pick(60_000, 1_500_000)
     }
-    fn run(&self, _case: &u8) -> Outcome {
-        let mut o = Outcome::new();
-        o.skip("not built");
-        o
+    fn exhaustive_note(&self, tier: Tier) -> Option<String> {
+        Some(match tier {
+            Tier::Quick => "texts of 4 and 6 codepoints with every range 0<=b<=e<=N known: every range as bound reference (N=4,6) and every pair of ranges as an explicit set (N=4), x all 96 operator/modifier combinations".into(),
+            Tier::Thorough => "texts of 4, 6 and 9 codepoints with every range known: every range as bound reference (N=4,6,9) and every pair of ranges as an explicit set (N=4,5), x all 96 operator/modifier combinations".into(),
+        })
+    }
+    fn enumerate(&self, tier: Tier) -> Vec<Case> {
+        let base = "a b  c de";
+        let mut v = vec![];
+        let all_ranges = |n: u8| -> Vec<(u8, u8)> {
+            let mut r = vec![];
+            for b in 0..=n {
+                for e in b..=n {
+                    r.push((b, e));
+                }
+            }
+            r
+        };
+        let singles: Vec<u8> = tier.pick(vec![4, 6], vec![4, 6, 9]);
+        for n in singles {
+            let text: String = base.chars().take(n as usize).collect();
+            let rs = all_ranges(n);
+            let known: Vec<KnownSel> = rs.iter().map(|r| KnownSel { b: r.0, e: r.1, removed: false }).collect();
+            for r in &rs {
+                v.push(Case {
+                    text: text.clone(),
+                    known: known.clone(),
+                    reference: RefSpec::Selection { b: r.0, e: r.1 },
+                    only: None,
+                });
+            }
+        }
+        let pairs: Vec<u8> = tier.pick(vec![4], vec![4, 5]);
+        for n in pairs {
+            let text: String = base.chars().take(n as usize).collect();
+            let rs = all_ranges(n);
+            let known: Vec<KnownSel> = rs.iter().map(|r| KnownSel { b: r.0, e: r.1, removed: false }).collect();
+            for i in 0..rs.len() {
+                for j in i + 1..rs.len() {
+                    v.push(Case {
+                        text: text.clone(),
+                        known: known.clone(),
+                        reference: RefSpec::Set { sels: vec![rs[i], rs[j]], sorted: (i + j) % 2 == 1 },
+                        only: None,
+                    });
+                }
+            }
+        }
+        v
+    }
+    fn strategy(&self, tier: Tier) -> BoxedStrategy<Case> {
+        let maxlen: usize = tier.pick(48, 64);
+        let segs = proptest::collection::vec((any::<u8>(), any::<u8>()), 0..=tier.pick(12, 16));
+        let anchors = proptest::collection::vec(any::<u16>(), 1..=5);
+        let sels = proptest::collection::vec((rawsel(), prop::bool::weighted(0.15)), 1..=tier.pick(12, 16));
+        let refsels = proptest::collection::vec((rawsel(), prop::bool::weighted(0.5), any::<u16>()), 1..=3);
+        (segs, any::<bool>(), anchors, sels, any::<u8>(), refsels)
+            .prop_map(move |(segs, ascii, anchors, sels, refkind, refsels)| {
+                raw_case(segs, ascii, anchors, sels, refkind, refsels, maxlen)
+            })
+            .boxed()
+    }
+
+    fn health(&self, labels: &BTreeMap<String, u64>, evals: u64) -> Vec<String> {
+        let mut v = vec![];
+        if evals < 2000 {
+            return v;
+        }
+        let frac = |l: &str| *labels.get(l).unwrap_or(&0) as f64 / evals as f64;
+        for (l, min) in [
+            ("ref_second_half", 0.30),
+            ("ref_first_half", 0.30),
+            ("multibyte", 0.25),
+            ("cand_zero_width", 0.30),
+            ("cand_ends_at_textlen", 0.30),
+            ("ref_multi", 0.20),
+            ("ref_bound", 0.20),
+            ("ref_unbound", 0.08),
+            ("ref_annotation", 0.15),
+            ("ref_set", 0.10),
+            ("cand_crossing", 0.18),
+            ("cand_nested", 0.30),
+            ("ws_gap_candidate", 0.15),
+        ] {
+            if frac(l) < min {
+                v.push(format!("label {} in only {:.1}% of cases (< {:.0}%)", l, frac(l) * 100.0, min * 100.0));
+            }
+        }
+        v
+    }
+
+    fn run(&self, case: &Case) -> Outcome {
+        let mut out = Outcome::new();
+        let text: Vec<char> = case.text.chars().collect();
+        let n = text.len();
+        let refspec: Vec<(u8, u8)> = match &case.reference {
+            RefSpec::Selection { b, e } => vec![(*b, *e)],
+            RefSpec::Annotation { sels, .. } | RefSpec::Set { sels, .. } => sels.clone(),
+        };
+        let valid = |b: u8, e: u8| b <= e && (e as usize) <= n;
+        let mut dedup = refspec.clone();
+        dedup.sort();
+        dedup.dedup();
+        if n > 200
+            || case.known.len() > 64
+            || refspec.is_empty()
+            || refspec.len() > 8
+            || dedup.len() != refspec.len()
+            || case.known.iter().any(|k| !valid(k.b, k.e))
+            || refspec.iter().any(|r| !valid(r.0, r.1))
+        {
+            out.skip("invalid case");
+            return out;
+        }
+        let refs: Vec<R> = refspec.iter().map(|r| (r.0 as usize, r.1 as usize)).collect();
+
+        // ---- build the store
+        let mut store = AnnotationStore::default();
+        store
+            .add_resource(TextResourceBuilder::new().with_id("r").with_text(case.text.clone()))
+            .expect("add_resource");
+        // a second resource with the same text: its selections (same offsets) must never show up
+        store
+            .add_resource(TextResourceBuilder::new().with_id("other").with_text(case.text.clone()))
+            .expect("add_resource other");
+        let mut known: Vec<R> = vec![];
+        let mut to_remove = vec![];
+        for (i, k) in case.known.iter().enumerate() {
+            let r = (k.b as usize, k.e as usize);
+            let h = store
+                .annotate(
+                    AnnotationBuilder::new()
+                        .with_target(SelectorBuilder::textselector("r", Offset::simple(r.0, r.1)))
+                        .with_data("s", "k", i as isize),
+                )
+                .expect("annotate");
+            if k.removed {
+                to_remove.push(h);
+            }
+            if i % 2 == 0 {
+                store
+                    .annotate(
+                        AnnotationBuilder::new()
+                            .with_target(SelectorBuilder::textselector("other", Offset::simple(r.0, r.1)))
+                            .with_data("s", "k", "other"),
+                    )
+                    .expect("annotate other");
+            }
+            if !known.contains(&r) {
+                known.push(r);
+            }
+        }
+        let mut refann = None;
+        if let RefSpec::Annotation { complex, .. } = &case.reference {
+            let subs = refs
+                .iter()
+                .map(|r| SelectorBuilder::textselector("r", Offset::simple(r.0, r.1)));
+            let target = if refs.len() == 1 {
+                SelectorBuilder::textselector("r", Offset::simple(refs[0].0, refs[0].1))
+            } else {
+                match complex % 3 {
+                    0 => SelectorBuilder::multiselector(subs),
+                    1 => SelectorBuilder::compositeselector(subs),
+                    _ => SelectorBuilder::directionalselector(subs),
+                }
+            };
+            let h = store
+                .annotate(AnnotationBuilder::new().with_target(target).with_data("s", "k", "ref"))
+                .expect("annotate reference");
+            refann = Some(h);
+            for r in &refs {
+                if !known.contains(r) {
+                    known.push(*r);
+                }
+            }
+        }
+        if !to_remove.is_empty() {
+            out.label("annotation_removed");
+        }
+        for h in to_remove {
+            if store.remove_annotation(h).is_err() {
+                out.skip("remove_annotation failed");
+                return out;
+            }
+        }
+        known.sort();
+        let store = &store;
+        let resource = store.resource("r").expect("resource");
+
+        // every known selection must be visible as a bound selection, and nothing else (precondition, C01's business)
+        let mut listed: Vec<R> = resource.textselections().map(|t| (t.begin(), t.end())).collect();
+        listed.sort();
+        if listed != known {
+            out.skip("known selections differ from resource.textselections()");
+            return out;
+        }
+
+        // ---- the reference
+        let mk = |r: &R| -> ResultTextSelection {
+            resource
+                .textselection(&Offset::simple(r.0, r.1))
+                .expect("textselection in range")
+        };
+        let refsel: Vec<ResultTextSelection> = refs.iter().map(mk).collect();
+        for (r, t) in refs.iter().zip(refsel.iter()) {
+            let bound = matches!(t, ResultTextSelection::Bound(_));
+            if bound != known.contains(r) {
+                out.skip("boundness of reference differs from knownness");
+                return out;
+            }
+        }
+        let refs_all_known = refs.iter().all(|r| known.contains(r));
+        let refs_any_known = refs.iter().any(|r| known.contains(r));
+        let rclass = refclass(&refs, n);
+
+        // ---- labels
+        let halfway = n / 2;
+        if refs.iter().any(|r| r.0 > halfway) {
+            out.label("ref_second_half");
+        }
+        if refs.iter().any(|r| r.0 <= halfway) {
+            out.label("ref_first_half");
+        }
+        if refs.len() > 1 {
+            out.label("ref_multi");
+        }
+        if refs.iter().any(|r| r.0 == r.1) {
+            out.label("ref_zero_width");
+        }
+        if refs.iter().any(|r| r.1 == n) {
+            out.label("ref_ends_at_textlen");
+        }
+        match &case.reference {
+            RefSpec::Selection { .. } => out.label(if refs_all_known { "ref_bound" } else { "ref_unbound" }),
+            RefSpec::Annotation { .. } => out.label("ref_annotation"),
+            RefSpec::Set { sorted, .. } => {
+                out.label("ref_set");
+                if *sorted {
+                    out.label("ref_set_sorted");
+                }
+                if refs_any_known && !refs_all_known {
+                    out.label("ref_set_mixed_bound_unbound");
+                }
+            }
+        }
+        if !case.text.is_ascii() {
+            out.label("multibyte");
+        }
+        if n == 0 {
+            out.label("text_empty");
+        }
+        let hb = refs.iter().map(|x| x.0).min().unwrap();
+        let he = refs.iter().map(|x| x.1).max().unwrap();
+        for c in &known {
+            if refs.contains(c) {
+                continue;
+            }
+            if c.0 == c.1 {
+                out.label("cand_zero_width");
+                if c.0 == n {
+                    out.label("cand_zero_width_at_textlen");
+                }
+                if c.0 == hb || c.0 == he {
+                    out.label("cand_zero_width_on_ref_boundary");
+                }
+            }
+            if c.1 == n {
+                out.label("cand_ends_at_textlen");
+            }
+            if (c.0 < hb && c.1 > hb && c.1 < he) || (c.0 > hb && c.0 < he && c.1 > he) {
+                out.label("cand_crossing");
+            }
+            if (c.0 >= hb && c.1 <= he) || (c.0 <= hb && c.1 >= he) {
+                out.label("cand_nested");
+            }
+            if c.1 == hb || c.0 == he {
+                out.label("cand_adjacent");
+            }
+            if (c.1 < hb && text[c.1..hb].iter().all(|x| x.is_whitespace()))
+                || (c.0 > he && text[he..c.0].iter().all(|x| x.is_whitespace()))
+            {
+                out.label("ws_gap_candidate");
+                if (c.1 < hb && hb - c.1 > WHITESPACE_LIMIT) || (c.0 > he && c.0 - he > WHITESPACE_LIMIT) {
+                    out.label("ws_gap_over_limit");
+                }
+            }
+        }
+
+        // ---- evaluate
+        let ops: Vec<Op> = match &case.only {
+            Some(o) => vec![*o],
+            None => c06_ops(),
+        };
+        let mut any_true = false;
+        let mut any_false = false;
+        let annotation = refann.map(|h| store.annotation(h).expect("reference annotation"));
+
+        for op in &ops {
+            let sop = op.to_stam();
+            let opsig = op.sig();
+            let mut answers: Vec<Answer> = vec![];
+            let mut push = |out: &mut Outcome,
+                            entry: &'static str,
+                            union: bool,
+                            ordered: bool,
+                            r: Result<Vec<(usize, usize, bool)>, PanicInfo>| {
+                match r {
+                    Ok(items) => answers.push(Answer { entry, items, union, ordered }),
+                    Err(p) => out.fail(
+                        "panic",
+                        format!("{}|ref={}|{}", opsig, rclass, p.signature()),
+                        format!("{} panicked at {}:{}: {} (op {:?}, refs {:?}, known {:?}, text {:?})", entry, p.file, p.line, p.msg, sop, refs, known, case.text),
+                    ),
+                }
+            };
+            // the explicit set form and the resource form work for every kind of reference
+            let sorted = matches!(&case.reference, RefSpec::Set { sorted: true, .. });
+            let mktset = || -> TextSelectionSet {
+                let set: ResultTextSelectionSet = refsel.iter().cloned().collect();
+                let mut tset: TextSelectionSet = set.inner().clone();
+                if sorted {
+                    tset.sort();
+                }
+                tset
+            };
+            push(&mut out, "ResultTextSelectionSet::related_text", false, false, catch(|| {
+                collect(mktset().as_resultset(store).related_text(sop))
+            }));
+            push(&mut out, "ResultItem<TextResource>::related_text", false, false, catch(|| {
+                collect(resource.related_text(sop, mktset()))
+            }));
+            match &case.reference {
+                RefSpec::Selection { .. } => {
+                    push(&mut out, "ResultTextSelection::related_text", false, false, catch(|| collect(refsel[0].related_text(sop))));
+                    if let Some(item) = refsel[0].as_resultitem() {
+                        push(&mut out, "ResultItem<TextSelection>::related_text", false, false, catch(|| collect(item.related_text(sop))));
+                    }
+                    if let Some(kw) = query_keyword(op) {
+                        match catch(|| run_query(store, kw, Some(&refsel[0]), None)) {
+                            Ok(Ok(items)) => answers.push(Answer { entry: "query:RELATION(textvar)", items, union: false, ordered: false }),
+                            Ok(Err(e)) => out.fail("query", format!("{}|error", opsig), format!("RELATION query with text variable failed: {}", e)),
+                            Err(p) => out.fail("panic", format!("{}|ref={}|{}", opsig, rclass, p.signature()), format!("RELATION query panicked at {}:{}: {}", p.file, p.line, p.msg)),
+                        }
+                    }
+                }
+                RefSpec::Annotation { .. } => {
+                    let a = annotation.as_ref().unwrap();
+                    push(&mut out, "ResultItem<Annotation>::related_text", false, true, catch(|| collect(a.related_text(sop))));
+                    push(&mut out, "annotation.textselectionset().related_text", false, false, catch(|| {
+                        collect(a.textselectionset().expect("textselectionset").related_text(sop))
+                    }));
+                    push(&mut out, "annotation.textselections().related_text", true, false, catch(|| {
+                        a.textselections().related_text(sop).map(|t| obs(&t)).collect()
+                    }));
+                    if let Some(kw) = query_keyword(op) {
+                        match catch(|| run_query(store, kw, None, Some(a))) {
+                            Ok(Ok(items)) => answers.push(Answer { entry: "query:RELATION(annotationvar)", items, union: true, ordered: false }),
+                            Ok(Err(e)) => out.fail("query", format!("{}|error", opsig), format!("RELATION query with annotation variable failed: {}", e)),
+                            Err(p) => out.fail("panic", format!("{}|ref={}|{}", opsig, rclass, p.signature()), format!("RELATION query panicked at {}:{}: {}", p.file, p.line, p.msg)),
+                        }
+                    }
+                }
+                RefSpec::Set { .. } => {}
+            }
+
+            // expectations per candidate
+            let exp_set: Vec<Option<bool>> = known
+                .iter()
+                .map(|c| expect(op, &refs, refs_all_known, *c, &text))
+                .collect();
+            let exp_union: Vec<Option<bool>> = if answers.iter().any(|a| a.union) {
+                known.iter().map(|c| expect_union(op, &refs, *c, &text)).collect()
+            } else {
+                vec![]
+            };
+            if !op.negate && op.limit.is_none() {
+                for (c, e) in known.iter().zip(exp_set.iter()) {
+                    if refs.contains(c) {
+                        continue;
+                    }
+                    match e {
+                        Some(true) => any_true = true,
+                        Some(false) => any_false = true,
+                        None => {}
+                    }
+                }
+            }
+
+            for ans in &answers {
+                let exp = if ans.union { &exp_union } else { &exp_set };
+                // signatures of the 'each selection separately' form and of sorted multi-member sets carry a prefix,
+                // so that a defect confined to them can be listed without masking the main form
+                let tag = if ans.union {
+                    "union:"
+                } else if sorted && refs.len() > 1 {
+                    "sortedset:"
+                } else {
+                    ""
+                };
+                let ctx = |c: R| -> String {
+                    format!(
+                        "{} with {:?}: reference {:?} ({}), candidate {:?}, known {:?}, text {:?}, got {:?}",
+                        ans.entry, sop, refs, rclass, c, known, case.text, ans.items
+                    )
+                };
+                // soundness for things that are not known selections at all
+                for it in &ans.items {
+                    out.checks += 1;
+                    let r = (it.0, it.1);
+                    if !known.contains(&r) || !it.2 {
+                        out.fail(
+                            "soundness",
+                            format!("{}{}|ref={}|not_a_known_selection", tag, opsig, rclass),
+                            format!("returned {:?} (bound={}) which is not a known selection; {}", r, it.2, ctx(r)),
+                        );
+                    }
+                }
+                for (c, e) in known.iter().zip(exp.iter()) {
+                    let count = ans.items.iter().filter(|it| (it.0, it.1) == *c).count();
+                    out.checks += 1;
+                    if count > 1 {
+                        out.fail(
+                            "dup",
+                            format!("{}{}|ref={}|{}", tag, opsig, rclass, class(*c, &refs, n, op, &text)),
+                            format!("returned {} times; {}", count, ctx(*c)),
+                        );
+                    }
+                    match e {
+                        None => out.dontcare += 1,
+                        Some(true) => {
+                            if count == 0 {
+                                out.fail(
+                                    "completeness",
+                                    format!("{}{}|ref={}|{}", tag, opsig, rclass, class(*c, &refs, n, op, &text)),
+                                    format!("missing; {}", ctx(*c)),
+                                );
+                            }
+                        }
+                        Some(false) => {
+                            if count > 0 {
+                                out.fail(
+                                    "soundness",
+                                    format!("{}{}|ref={}|{}", tag, opsig, rclass, class(*c, &refs, n, op, &text)),
+                                    format!("returned although not in the relation; {}", ctx(*c)),
+                                );
+                            }
+                        }
+                    }
+                }
+                if ans.ordered {
+                    out.checks += 1;
+                    let v: Vec<R> = ans.items.iter().map(|it| (it.0, it.1)).collect();
+                    // "in the same order as they appear in the original text": by begin position; ties are not documented
+                    if v.windows(2).any(|w| w[0].0 > w[1].0) {
+                        out.fail(
+                            "order",
+                            format!("{}|ref={}", opsig, rclass),
+                            format!("not in textual order; {}", ctx((0, 0))),
+                        );
+                    }
+                }
+            }
+        }
+        out.nontrivial = known.len() >= 3 && any_true && any_false;
+        out
     }
 }
